@@ -145,8 +145,10 @@ func runC20L2(r *core.Run) (*core.Violation, func() *core.Violation) {
 			}
 			ev := outbox[0]
 			outbox = outbox[1:]
-			if err := x.bus.Publish(ev); err != nil {
-				return
+			if typed, ok := x.viaChain(ev); ok {
+				if err := x.bus.Publish(typed); err != nil {
+					return
+				}
 			}
 			injecting--
 		}
